@@ -65,6 +65,12 @@ def expressions(tier):
     for f, a in itertools.product(NAMES[:3], FLITS):
         out.append('%s(%s)' % (f, a))
         out.append('[%s, %s]' % (a, f))
+    # one logical line written over several physical lines, with a comment ending a line that is not the last
+    for a, b, c in itertools.product(NAMES[:3], NAMES[:4], NAMES[:3]):
+        out.append('(%s  # what is earned\n + %s) * %s' % (a, b, c))
+        out.append('[%s,\n# the second entry\n%s][1] - %s' % (a, b, c))
+        out.append('max(%s,  # first\n    %s)' % (a, b))
+        out.append('(%s\n + %s)' % (a, b))
     for a in atoms:
         out += ['-%s' % a, '+ %s' % a, '(%s)' % a, '%s' % a, '((%s))*%s' % (a, a), ' %s ' % a, '+%s' % a, ' - %s' % a, '%s ' % a]
     return out
